@@ -4,9 +4,14 @@ use fp_model::grammar::{self, HbfShape, LinkCfg, PacketT};
 /// `links` interleaved links (round robin), `hbfs` HBFs each of shape `shape_idx`; when `err_pairs` is set every
 /// RDH carries a sanity fault (E10) and a running fault (E11): two errors at the same offset from one sender.
 pub fn multi_link(links: usize, hbfs: usize, shape_idx: usize, err_pairs: bool, stave: bool) -> (Vec<Vec<PacketT>>, Vec<u8>) {
+    multi_link_fmt(links, hbfs, shape_idx, err_pairs, stave, 2)
+}
+
+pub fn multi_link_fmt(links: usize, hbfs: usize, shape_idx: usize, err_pairs: bool, stave: bool, fmt: u8) -> (Vec<Vec<PacketT>>, Vec<u8>) {
     let mut per_link = Vec::new();
     for l in 0..links {
-        let cfg = LinkCfg::ib(l as u8, 4 + l as u8);
+        let mut cfg = LinkCfg::ib(l as u8, 4 + l as u8);
+        cfg.data_format = fmt;
         let shapes: Vec<HbfShape> = if stave { grammar::stave_hbf_shapes(&cfg) } else { grammar::basic_hbf_shapes(&cfg) }.into_iter().map(|s| s.1).collect();
         let hs: Vec<HbfShape> = (0..hbfs).map(|i| shapes[(shape_idx + i) % shapes.len()].clone()).collect();
         let mut pk = grammar::render_link(&cfg, &hs);
